@@ -90,7 +90,7 @@ def generate(T, tier):
         fmode = "bits" if nfl <= 6 else "cand"
         for n in ns:
             name = "%s_n%d" % (mod, n)
-            unw = max(12, cap + 2)
+            unw = max(12, min(cap, 64) + 2)
             code.append(HARNESS % {"unw": unw, "name": name, "expr": G.any_expr(mod, n, fmode), "mod": mod, "variant": m["variant"], "number": m["number"], "must_err": "false"})
             if FRAME_TYPES.get(mod) == n:
                 code.append(FRAME % {"unw": unw, "name": name, "expr": G.any_expr(mod, n, "bits"), "variant": m["variant"], "number": m["number"]})
@@ -124,11 +124,11 @@ pub fn field_%s() {
     stub = ["-Z", "stubbing"]
     return {
         "harnesses": hs,
-        "groups": {"main": {"features": ["c09"], "timeout_s": 1800},
+        "groups": {"main": {"features": ["c09"], "timeout_s": 1800, "unwindset": [["try_from_fn_erased", 392]]},
                    "msm": {"features": ["c09"], "timeout_s": 3000},
-                   "big": {"features": ["c09"], "timeout_s": 3000},
+                   "big": {"features": ["c09"], "timeout_s": 3000, "unwindset": [["try_from_fn_erased", 392]]},
                    "field": {"features": ["c09"], "timeout_s": 900},
-                   "frame": {"features": ["c09"], "timeout_s": 2400, "kani_args": stub}},
+                   "frame": {"features": ["c09"], "timeout_s": 2400, "unwindset": [["try_from_fn_erased", 392]], "kani_args": stub}},
         "level": "model_checking",
         "functions": ["rtcm_rs::MessageBuilder::{new,build_message}", "msgNNNN::encode for all %d types" % len(T.messages), "df::dfs::*::encode", "Assembler::put", "bit_value::*::sign_fix_rev"],
         "bounds": {"values": "integers over their whole Rust type, floats over every bit pattern, optionals present/absent",
